@@ -21,11 +21,12 @@ type limitCase struct {
 	FailAt   int
 	FailWith bool
 	FailErr  int   // which error value the source fails with (index into vk.FaultErrors)
+	FailOnce bool  // the error comes from one Read call only
 	Consumer []int // nil: io.ReadAll; [-1]: io.Copy
 }
 
 func (c limitCase) String() string {
-	return fmt.Sprintf("limit{N=%d len=%d chunks=%v eofWith=%v failAt=%d failWith=%v failErr=%d consumer=%v}", c.N, c.Len, c.Chunks, c.EOFWith, c.FailAt, c.FailWith, c.FailErr, c.Consumer)
+	return fmt.Sprintf("limit{N=%d len=%d chunks=%v eofWith=%v failAt=%d failWith=%v failErr=%d failOnce=%v consumer=%v}", c.N, c.Len, c.Chunks, c.EOFWith, c.FailAt, c.FailWith, c.FailErr, c.FailOnce, c.Consumer)
 }
 
 func data(n int, salt byte) []byte {
@@ -53,7 +54,7 @@ func consume(r io.Reader, consumer []int) ([]byte, error) {
 func checkLimit(c limitCase) string {
 	d := data(c.Len, 0x5a)
 	injected := vk.FaultErrors[c.FailErr%len(vk.FaultErrors)]
-	src := &vk.ScriptReader{Data: d, Chunks: c.Chunks, EOFWith: c.EOFWith, FailAt: c.FailAt, FailWith: c.FailWith, Err: injected}
+	src := &vk.ScriptReader{Data: d, Chunks: c.Chunks, EOFWith: c.EOFWith, FailAt: c.FailAt, FailWith: c.FailWith, FailOnce: c.FailOnce, Err: injected}
 	lr := streams.LimitReadCloser(src, c.N)
 	out, err := consume(lr, c.Consumer)
 	faulty := c.FailAt >= 0 && c.FailAt <= c.Len
@@ -224,6 +225,7 @@ func TestLimitRapid(t *testing.T) {
 			c.FailAt = rapid.IntRange(0, L).Draw(rt, "failAt")
 			c.FailWith = rapid.Bool().Draw(rt, "failWith")
 			c.FailErr = rapid.IntRange(0, len(vk.FaultErrors)-1).Draw(rt, "failErr")
+			c.FailOnce = rapid.Bool().Draw(rt, "failOnce")
 		}
 		switch rapid.IntRange(0, 3).Draw(rt, "consumer") {
 		case 0:
